@@ -1,6 +1,8 @@
 package main
 
 import (
+	"bytes"
+	"errors"
 	"strconv"
 	"strings"
 	"sync"
@@ -149,14 +151,15 @@ func (w *walker) list(l capnp.List) {
 		}
 	case flags == 1 || pc > 0:
 		for _, i := range is {
-			if pc == 1 && ds == 0 && flags != 1 {
+			if pc >= 1 {
 				p, err := capnp.PointerList{List: l}.At(i)
 				if err != nil {
 					w.sb.WriteString("E")
 				} else {
 					w.ptr(p)
 				}
-			} else {
+			}
+			if flags == 1 {
 				w.sb.WriteString("u" + strconv.FormatUint(capnp.UInt64List{List: l}.At(i), 10))
 			}
 			st := l.Struct(i)
@@ -270,7 +273,7 @@ func execConc(t []string) string {
 	for _, x := range granted {
 		total += x
 	}
-	if total+msg.VerifReadLimit() > T {
+	if total+msg.VerifReadLimit() > T || msg.VerifReadLimit() > T {
 		return "over granted=" + strconv.FormatUint(total, 10) + " rl=" + strconv.FormatUint(msg.VerifReadLimit(), 10)
 	}
 	return "ok"
@@ -310,6 +313,10 @@ func tree(sb *strings.Builder, p capnp.Ptr, err error) {
 			ek = 5
 		}
 		sb.WriteString("L" + strconv.Itoa(ek) + "," + strconv.Itoa(n) + "[")
+		nAll := n
+		if n > treeCap {
+			n = treeCap // both sides render at most treeCap elements / fields
+		}
 		hexLE := func(v uint64, w int) {
 			for k := 0; k < w; k++ {
 				b := byte(v >> (8 * uint(k)))
@@ -337,14 +344,44 @@ func tree(sb *strings.Builder, p capnp.Ptr, err error) {
 			}
 		}
 		sb.WriteString("]")
+		// upgrade rules on the first element (see Spec.Encoding.renderPtr)
+		_ = nAll
+		if n > 0 && ek == 7 {
+			sb.WriteString("^")
+			q, err := capnp.PointerList{List: l}.At(0)
+			tree(sb, q, err)
+			sb.WriteString(",")
+			if ds == 0 {
+				sb.WriteString(strconv.FormatUint(capnp.UInt64List{List: l}.At(0), 10))
+			} else {
+				hexLE(capnp.UInt64List{List: l}.At(0), 8)
+			}
+		} else if n > 0 && ek >= 2 && ek <= 5 {
+			sb.WriteString("^")
+			st := l.Struct(0)
+			treeStruct(sb, st)
+			if ek == 5 {
+				hexLE(st.Uint64(0), 8)
+			} else {
+				sb.WriteString(strconv.FormatUint(st.Uint64(0), 10)) // wider than the element: default
+			}
+		}
 	default:
 		sb.WriteString("C" + strconv.FormatUint(uint64(p.Interface().Capability()), 10))
 	}
 }
 
+const treeCap = 64
+
 func treeStruct(sb *strings.Builder, s capnp.Struct) {
 	sz := s.Size()
 	sb.WriteString("S{")
+	if sz.DataSize > 8*treeCap {
+		sz.DataSize = 8 * treeCap
+	}
+	if sz.PointerCount > treeCap {
+		sz.PointerCount = treeCap
+	}
 	for k := 0; k < int(sz.DataSize); k++ {
 		v := s.Uint8(capnp.DataOffset(k))
 		sb.WriteByte(hexdigits[v>>4])
@@ -370,13 +407,175 @@ func execTree(t []string) string {
 	return sb.String()
 }
 
+var sharedOnce sync.Once
+var shared []*capnp.Client
+
+func sharedClients() []*capnp.Client {
+	sharedOnce.Do(func() {
+		for i := 0; i < 8; i++ {
+			shared = append(shared, capnp.ErrorClient(errors.New("cap "+strconv.Itoa(i))))
+		}
+	})
+	return shared
+}
+
+// execNoPanic runs one of the recursive consumers on a hostile message; the only thing compared is
+// that it returns (value or error): "read nopanic <what> <T> <D> <segs>" / "read nopanic unmarshal <hex>".
+func execNoPanic(t []string) string {
+	if t[0] == "unmarshal" {
+		b, err := lib.UnHex(t[1])
+		if err != nil {
+			return "bad-op"
+		}
+		b = exact(b)
+		if m, err := capnp.Unmarshal(b); err == nil {
+			m.TraverseLimit = 1 << 16
+			if r, err := m.Root(); err == nil {
+				w := &walker{nodes: 100}
+				w.ptr(r)
+			}
+		}
+		if m, err := capnp.UnmarshalPacked(b); err == nil {
+			m.TraverseLimit = 1 << 16
+			if r, err := m.Root(); err == nil {
+				w := &walker{nodes: 100}
+				w.ptr(r)
+			}
+		}
+		d := capnp.NewDecoder(bytes.NewReader(b))
+		d.MaxMessageSize = 1 << 20
+		for i := 0; i < 4; i++ {
+			if _, err := d.Decode(); err != nil {
+				break
+			}
+		}
+		pd := capnp.NewPackedDecoder(bytes.NewReader(b))
+		pd.MaxMessageSize = 1 << 20
+		for i := 0; i < 4; i++ {
+			if _, err := pd.Decode(); err != nil {
+				break
+			}
+		}
+		return "done"
+	}
+	if len(t) != 4 {
+		return "bad-op"
+	}
+	T, _ := strconv.ParseUint(t[1], 10, 64)
+	D, _ := strconv.ParseUint(t[2], 10, 64)
+	segs, ok := parseSegs(t[3])
+	if !ok {
+		return "bad-op"
+	}
+	msg := &capnp.Message{Arena: capnp.MultiSegment(segs), TraverseLimit: T, DepthLimit: uint(D)}
+	root, err := msg.Root()
+	if err != nil {
+		return "done"
+	}
+	switch t[0] {
+	case "equal":
+		capnp.Equal(root, root)
+		segs2, _ := parseSegs(t[3])
+		msg2 := &capnp.Message{Arena: capnp.MultiSegment(segs2), TraverseLimit: T, DepthLimit: uint(D)}
+		if r2, err := msg2.Root(); err == nil {
+			capnp.Equal(root, r2)
+		}
+	case "canon":
+		if root.Struct().IsValid() {
+			capnp.Canonicalize(root.Struct())
+		}
+	case "copy":
+		_, seg, err := capnp.NewMessage(capnp.SingleSegment(nil))
+		if err == nil {
+			seg.Message().SetRoot(root)
+		}
+		_, seg2, err := capnp.NewMessage(capnp.MultiSegment(nil))
+		if err == nil {
+			seg2.Message().SetRoot(root)
+		}
+	default:
+		return "bad-op"
+	}
+	return "done"
+}
+
+// execCopyCycle: "read copycycle <T> <D>": deep copy of the one-pointer cyclic struct; the copy may
+// follow at most D pointers, so it allocates at most D+1 two-word structs (Props.C02.path_bounds).
+func execCopyCycle(t []string) string {
+	T, _ := strconv.ParseUint(t[1], 10, 64)
+	D, _ := strconv.ParseUint(t[2], 10, 64)
+	seg := make([]byte, 24)
+	// word 0: struct ptr off 0, data 1 word, 1 pointer ; word 1: data; word 2: pointer back to the struct (off -2)
+	copy(seg, []byte{0, 0, 0, 0, 1, 0, 1, 0})
+	seg[8] = 0x2a
+	copy(seg[16:], []byte{0xf8, 0xff, 0xff, 0xff, 1, 0, 1, 0})
+	msg := &capnp.Message{Arena: capnp.SingleSegment(exact(seg)), TraverseLimit: T, DepthLimit: uint(D)}
+	root, err := msg.Root()
+	if err != nil {
+		return "ok"
+	}
+	_, dseg, err := capnp.NewMessage(capnp.SingleSegment(nil))
+	if err != nil {
+		return "ok"
+	}
+	dseg.Message().SetRoot(root)
+	n := len(dseg.Data())
+	if uint64(n) > 8+16*(D+2) {
+		return "over " + strconv.Itoa(n)
+	}
+	return "ok"
+}
+
+// execEqual: "read equal <segsA> <segsB>": capnp.Equal on the two roots.
+func execEqual(t []string) string {
+	sa, ok1 := parseSegs(t[1])
+	sb, ok2 := parseSegs(t[2])
+	if !ok1 || !ok2 {
+		return "bad-op"
+	}
+	ma := &capnp.Message{Arena: capnp.MultiSegment(sa), TraverseLimit: 1 << 40}
+	mb := &capnp.Message{Arena: capnp.MultiSegment(sb), TraverseLimit: 1 << 40}
+	// both capability tables hold the same eight clients: index i of either message is client i
+	shift, _ := strconv.Atoi(t[3])
+	cl := sharedClients()
+	for i := range cl {
+		ma.AddCap(cl[i].AddRef())
+		mb.AddCap(cl[(i+shift)%8].AddRef()) // same clients, other order: identity is by client
+	}
+	ra, err := ma.Root()
+	if err != nil {
+		return "invalid"
+	}
+	rb, err := mb.Root()
+	if err != nil {
+		return "invalid"
+	}
+	eq, err := capnp.Equal(ra, rb)
+	if err != nil {
+		return "invalid"
+	}
+	if eq {
+		return "true"
+	}
+	return "false"
+}
+
 // execRead: "read walk <T> <D> <segs>"
 func execRead(t []string) string {
 	if len(t) > 0 && t[0] == "conc" {
 		return execConc(t)
 	}
+	if len(t) >= 3 && t[0] == "nopanic" {
+		return execNoPanic(t[1:])
+	}
+	if len(t) == 3 && t[0] == "copycycle" {
+		return execCopyCycle(t)
+	}
 	if len(t) == 2 && t[0] == "tree" {
 		return execTree(t)
+	}
+	if len(t) == 4 && t[0] == "equal" {
+		return execEqual(t)
 	}
 	if len(t) != 4 || t[0] != "walk" {
 		return "bad-op"
